@@ -42,7 +42,8 @@ Fixpoint split_paths (fuel : nat) (l : list Z) : option (list (list nat)) :=    
 Definition bad : list (list Z) := [[-8]].
 Definition path_spec (g : adjl) (s t : nat) (im : path_impl) : list (option (list (list Z))) :=
   let n := length g in
-  if negb (Nat.ltb s n && Nat.ltb t n) then repeat (Some [[zexn OutOfRange]]) 6 else
+  if negb (Nat.ltb s n) then repeat (Some [[zexn OutOfRange]]) 6 else
+  let tbad := negb (Nat.ltb t n) in
   let d := map (fun v => zopt (hopdist g s v)) (seq 0 n) in
   let e := length (concat g) in
   [ Some [d;
@@ -51,8 +52,8 @@ Definition path_spec (g : adjl) (s t : nat) (im : path_impl) : list (option (lis
     Some [d;
           zpreds (map (fun v => match hopdist g s v with Some (S k) => filter (fun q => mem v (nth q g []) && (match hopdist g s q with Some k' => Nat.eqb k' k | None => false end)) (seq 0 n) | _ => [] end) (seq 0 n));
           if Z.leb (pi_scans2 im) (Z.of_nat (n + e)) then [pi_scans2 im] else [-8]];
-    Some (match split_paths 2 (pi_path im) with Some [p] => if path_ok g s t p then [pi_path im] else bad | _ => bad end);
-    Some [zpaths (shortest_paths g s t)];
+    Some (if tbad then [[zexn OutOfRange]] else match split_paths 2 (pi_path im) with Some [p] => if path_ok g s t p then [pi_path im] else bad | _ => bad end);
+    Some (if tbad then [[zexn OutOfRange]] else [zpaths (shortest_paths g s t)]);
     Some (match split_paths (S n) (pi_from im) with
           | Some ps => if Nat.eqb (length ps) n && forallb (fun jp => path_ok g s (fst jp) (snd jp)) (combine (seq 0 n) ps) then [pi_from im] else bad
           | None => bad end);
